@@ -70,8 +70,9 @@ def hamilton (T W : Int) (ns : List Node) : List Int :=
 /-! ### iterationForRedistribution -/
 
 /-- one round: add the deltas, split into still-unsatisfied and capped nodes. -/
-def addDeltas (ns : List (Node × Int)) (ds : List Int) : List (Node × Int) :=
-  List.zipWith (fun p d => (p.1, p.2 + d)) ns ds
+def addDeltas : List (Node × Int) → List Int → List (Node × Int)
+  | p :: ps, d :: ds => (p.1, p.2 + d) :: addDeltas ps ds
+  | _, _ => []
 
 def stillOf (ns : List (Node × Int)) : List (Node × Int) := ns.filter (fun p => p.2 < p.1.request)
 
@@ -138,11 +139,18 @@ deriving Repr
 def lookupRt (name : Nat) (rs : List (Nat × Int)) : Option Int :=
   (rs.find? (fun p => p.1 == name)).map (·.2)
 
-def cacheGet (name : Nat) (c : List (Nat × Nat × Int)) : Option (Nat × Int) :=
-  (c.find? (fun p => p.1 == name)).map (·.2)
+def cacheGet (name : Nat) : List (Nat × Nat × Int) → Option (Nat × Int)
+  | [] => none
+  | (k, v) :: rest => if k = name then some v else cacheGet name rest
 
+/-- newest binding first; older bindings of the same name are shadowed. -/
 def cachePut (name : Nat) (v : Nat × Int) (c : List (Nat × Nat × Int)) : List (Nat × Nat × Int) :=
-  (name, v) :: c.filter (fun p => p.1 != name)
+  (name, v) :: c
+
+/-- `calculateRuntimeNoLock` + copy the node's runtime into the QuotaInfo + stamp the version.
+    (A child the calculator does not hold reads as 0 here.) -/
+def Calc.recompute (c : Calc) (nm : Nat) : Calc :=
+  { c with cache := cachePut nm (c.version, (lookupRt nm (redistribute c.total c.nodes)).getD 0) c.cache }
 
 def Calc.step (c : Calc) : CalcOp → Calc
   | .setTotal t => { c with total := t, version := c.version + 1 }
@@ -150,14 +158,7 @@ def Calc.step (c : Calc) : CalcOp → Calc
   | .erase nm => { c with nodes := c.nodes.filter (fun m => m.name != nm), version := c.version + 1 }
   | .refresh nm =>
     match cacheGet nm c.cache with
-    | some (v, _) =>
-      if v == c.version then c else
-        match lookupRt nm (redistribute c.total c.nodes) with
-        | some rt => { c with cache := cachePut nm (c.version, rt) c.cache }
-        | none => { c with cache := cachePut nm (c.version, 0) c.cache }
-    | none =>
-      match lookupRt nm (redistribute c.total c.nodes) with
-      | some rt => { c with cache := cachePut nm (c.version, rt) c.cache }
-      | none => { c with cache := cachePut nm (c.version, 0) c.cache }
+    | some (v, _) => if v = c.version then c else c.recompute nm
+    | none => c.recompute nm
 
 end KoordVerif.C02
